@@ -803,7 +803,10 @@ def main(run):
                 if out != ("ok", (j_, exp[2])):
                     viol("searchSubtree(%d) is not the span of the subtree rooted there (expected %r)" % (i, (j_, exp[2])), case)
             emit(ps, "CSearch U%d %s %s %s" % (ps.k, clit(ps.lit(nodes)), cz(i),
-                                              coutcome(out, lambda p: "(%s, %s)" % (cnat(p[0]), cnat(p[1])))), case, len(nodes) > 1)
+                                              # (a negative bound can only come from a defect: it is clamped here, the model
+                                              # answers IndexError or the true span, so the case still disagrees)
+                                              coutcome(out, lambda p: "(%s, %s)" % (cnat(max(p[0], 0)), cnat(max(p[1], 0))))),
+                 case, len(nodes) > 1)
         try:
             out = ("ok", tree.height)
         except IndexError:
@@ -1314,6 +1317,35 @@ def main(run):
                             "ill-typed offspring, as the model says" if ill else "well-typed offspring (model example no longer matches)"))
     except Exception as e:  # noqa
         run.notes.append("excluded-configuration replay failed: %r" % (e,))
+
+    def search(r):
+        """only runs when an obligation or the correspondence broke and the regular cases gave no failing input: an
+        oracle-only sweep beyond the sizes the regular generators reach (a regenerated definition that is no longer the
+        model may differ from it only for tall or large trees: a threshold on depth, height or length)"""
+        before = len(r.oracle_viol)
+        big = []
+        for kind in ("full", "grow", "half"):
+            for (mn, mx) in [(7, 7), (8, 10), (10, 10), (11, 12), (12, 12), (13, 13), (12, 14), (14, 14)]:
+                for _ in range(2):
+                    t = gen_case(arith, kind, mn, mx, None, RandSrc(rng))
+                    if t is not None and 150 <= len(t) <= 3000:
+                        big.append(t)
+                if len(r.oracle_viol) > before:
+                    return
+        tall = [by_name(arith, wrap_t(2, chain_t(k))) for k in (40, 65, 95)]
+        pool = big[:8] + tall
+        for i, a in enumerate(pool):
+            b = pool[(i + 3) % len(pool)]
+            for op in (("cx",), ("cxlb", 0.1), ("cxlb", 0.9), ("uniform", ("grow", 1, 3)), ("noderepl",), ("insert",),
+                       ("shrink",)):
+                ins = [list(a), list(b)] if arity2(op) == 2 else [list(a)]
+                op_case(arith, op, [list(x) for x in ins], RandSrc(rng), heights_too=True)
+                h = max(depths(x)[0] for x in ins)
+                op_case(arith, op, [list(x) for x in ins], RandSrc(rng), limit=("height", h))
+                op_case(arith, op, [list(x) for x in ins], RandSrc(rng), limit=("len", max(len(x) for x in ins)))
+            if len(r.oracle_viol) > before:
+                return
+    run.search_fn = search
 
     import time as _time
     run.notes.append("python phase %.1fs, %d terms" % (_time.time() - run.t0, sum(len(g[1]) for g in groups.values())))
